@@ -512,6 +512,8 @@ pub fn run(args: &Args) -> Report {
                 let mut last_progress = Instant::now();
                 let mut last_size = 0u64;
                 let mut hang = None;
+                let mut extensions = 0u32;
+                let mut slow = false;
                 let status = loop {
                     match child.try_wait() {
                         Ok(Some(st)) => break Some(st),
@@ -522,10 +524,37 @@ pub fn run(args: &Args) -> Report {
                                 last_progress = Instant::now();
                             }
                             if last_progress.elapsed() > Duration::from_secs(60) {
-                                hang = Some(());
-                                let _ = child.kill();
-                                let _ = child.wait();
-                                break None;
+                                // the wall clock only raises the question: a hang is a child in which nobody computes
+                                // for 2 s (blocked) or one thread burns >= 8.5 s of CPU time in 10 s while the rest is
+                                // idle (an endless loop); a child that is merely slow gets more time (5 extensions)
+                                let cpu = |pid: u32| crate::engines::live::thread_cpu(pid);
+                                let a = cpu(child.id());
+                                std::thread::sleep(Duration::from_secs(2));
+                                let b2 = cpu(child.id());
+                                let progressed = b2.iter().filter(|(t, (_, c))| a.get(*t).map(|(_, c0)| c0 != c).unwrap_or(true)).count();
+                                let mut is_hang = progressed == 0;
+                                if !is_hang {
+                                    let c0 = cpu(child.id());
+                                    std::thread::sleep(Duration::from_secs(10));
+                                    let c1 = cpu(child.id());
+                                    let deltas: Vec<u64> = c1.iter().map(|(t, (_, c))| c.saturating_sub(c0.get(t).map(|x| x.1).unwrap_or(*c))).collect();
+                                    is_hang = deltas.iter().filter(|d| **d >= 850).count() == 1 && deltas.iter().filter(|d| **d < 850).sum::<u64>() <= 50;
+                                }
+                                let same_image = std::fs::metadata(&logpath).map(|m| m.len()).unwrap_or(0) == last_size;
+                                if is_hang && same_image && matches!(child.try_wait(), Ok(None)) {
+                                    hang = Some(());
+                                    let _ = child.kill();
+                                    let _ = child.wait();
+                                    break None;
+                                }
+                                extensions += 1;
+                                if extensions > 5 {
+                                    slow = true;
+                                    let _ = child.kill();
+                                    let _ = child.wait();
+                                    break None;
+                                }
+                                last_progress = Instant::now();
                             }
                             std::thread::sleep(Duration::from_millis(20));
                         }
@@ -589,10 +618,12 @@ pub fn run(args: &Args) -> Report {
                 }
                 if hang.is_some() {
                     if let Some((i, m)) = &last_started {
-                        local.violation(format!("fuzz:hang:{m}"), format!("image {i} ({m}): open / probe made no progress for 60 s"), json!({"engine": "fuzzopen", "seed": seed, "image": i, "mutator": m}));
+                        local.violation(format!("fuzz:hang:{m}"), format!("image {i} ({m}): open / probe made no progress for 60 s, with every thread blocked or a single thread spinning (CPU-time signature)"), json!({"engine": "fuzzopen", "seed": seed, "image": i, "mutator": m}));
                     } else {
                         local.inconclusive.push(format!("batch {b}: child stalled between images"));
                     }
+                } else if slow {
+                    local.inconclusive.push(format!("batch {b}: child still computing on one image after several minutes without a stall or spin signature (slow machine)"));
                 } else if !finished {
                     match (&last_started, status) {
                         (Some((i, m)), st) => local.violation(format!("fuzz:abort:{m}"), format!("image {i} ({m}): the process died while opening / probing it ({st:?})"), json!({"engine": "fuzzopen", "seed": seed, "image": i, "mutator": m})),
